@@ -94,6 +94,19 @@ CHECKS = {
             "through the real writer between calls (model updated, everything re-asked). Held on the executions produced.",
             "R7 models constant-backed levels from the live configuration; unbacked levels and root siblings are not judged.",
             "runtime consistency monitors between API calls + existence reference model over create histories"),
+    "C15": ("exploration", "3 C15",
+            "history checking: every sequence of up to 3 (thorough: 4) operations over an alphabet of ~23 create/set/update calls on 7 Sids is "
+            "enumerated, plus random sequences up to length 40; each operation's outcome and, after each operation, all observables of all "
+            "Sids (FindInPaths existence, found-by-search, get_data, get_attr, a new Getter, sampled new-process reads) are compared with a "
+            "sequential model; written values are unique so a read identifies the writes it saw. Held on the histories produced.",
+            "entities differing only by the extension may share a store (both readings accepted); the harness resets the tree between sequences.",
+            "recorded-history checking against an executable sequential model (exhaustive short + random long sequences)"),
+    "C16": ("exploration", "3 C16",
+            "GetFromPaths(c).get is aligned record by record with FindInPaths(c).find and with sidecar data written by the harness, for every "
+            "attributes subset and three encoders; GetFromAll is compared with it per configured getter; get_one/get_data/get_attr with the "
+            "records. Held on the executions produced.",
+            "sidecar location is read from the live configuration.",
+            "runtime alignment monitor between Getter and Finder executions + independent data store"),
 }
 
 NOT_YET = {}
